@@ -25,6 +25,11 @@ func mkFixtures(dir string) {
 	writeIfMissing(filepath.Join(dir, "pgp", "ids4.asc"), func() []byte {
 		return pgpKeyWithIdentities(r, 4, time.Date(2023, 12, 31, 0, 10, 0, 0, time.UTC))
 	})
+	writeIfMissing(filepath.Join(dir, "pgp", "twoprimary.asc"), func() []byte {
+		pgpAllPrimary = true
+		defer func() { pgpAllPrimary = false }()
+		return pgpKeyWithIdentities(r, 3, time.Date(2024, 5, 5, 12, 0, 0, 0, time.UTC))
+	})
 	writeIfMissing(filepath.Join(dir, "pgp", "expiring.asc"), func() []byte {
 		return pgpKeyExpiring(r, time.Date(2024, 1, 10, 22, 30, 0, 0, time.UTC), 365*86400)
 	})
@@ -36,3 +41,7 @@ func writeIfMissing(p string, f func() []byte) {
 	}
 	os.WriteFile(p, f(), 0o644)
 }
+
+// pgpAllPrimary makes pgpKeyWithIdentities flag every added user ID as primary (RFC 4880 5.2.3.19
+// does not forbid several).
+var pgpAllPrimary bool
